@@ -1325,11 +1325,15 @@ class ListBox(Widget, WidgetContainerMixin):
 
         return key
 
-    def _keypress_max_left(self, size: tuple[int, int]) -> None:
+    def _keypress_max_left(self, size: tuple[int, int]) -> bool | None:
+        if not hasattr(self._body, "positions"):
+            return True  # positions() is optional for a list walker: leave the key unhandled
         self.focus_position = next(iter(self.body.positions()))
         self.set_focus_valign(VAlign.TOP)
 
-    def _keypress_max_right(self, size: tuple[int, int]) -> None:
+    def _keypress_max_right(self, size: tuple[int, int]) -> bool | None:
+        if not hasattr(self._body, "positions"):
+            return True  # positions() is optional for a list walker: leave the key unhandled
         self.focus_position = next(iter(self.body.positions(reverse=True)))
         self.set_focus_valign(VAlign.BOTTOM)
 
